@@ -4,8 +4,10 @@
 Three layers, all run on every invocation:
   1. Coq obligations of Properties_C16.v (theorems about every schedule of the policy / container models:
      StripedSet with both policies, CuckooSet with the striping policy; the cuckoo linearizability theorem is for
-     traces in which resize() did not drop an item (C17), the no-duplicate theorem is unconditional; CuckooSet with
-     the refinable policy is covered by layers 2 and 3 only).
+     traces in which resize() did not drop an item (C17), the no-duplicate theorem is unconditional; for CuckooSet
+     with the refinable policy the lock / ownership protocol is proved (a thread that returned from acquire() holds
+     cells of the current lock arrays, critical sections exclude each other and the resizer), linearizability under
+     that policy is covered by layers 2 and 3 only).
   2. Step correspondence: extracted models (Model/StripedConc.v, Model/CuckooConc.v) against the real intrusive
      StripedSet / CuckooSet under the deterministic scheduler, same programs and schedules, event logs compared
      line by line.
@@ -13,6 +15,10 @@ Three layers, all run on every invocation:
      verified extracted `lincheck` (SetSpec / MapSpec); an end-of-case monitor (contains / erase / erase again of
      every key by the main thread, item counter) is appended to the history and also checked directly
      (duplicate key, counter mismatch).
+Directed family for the refinable cuckoo policy (every run): a thread is parked inside acquire() after the first
+capacity test and before it takes its cells, another thread completes a resize (the lock arrays are replaced) and
+is then stopped at every step of a critical section on the same key, then the first thread runs on: a pilot run
+finds the step numbers.  This is the scenario of the seeded change C16a (acquire() without the capacity re-check).
 One cuckoo case in four is 'crowded' (one table-1 probe set for all keys, two buckets, insert-heavy) so that
 relocation faults, the relocation limit and resizes under contention are exercised.  A run that reaches the step
 limit (seen only as a lock-step livelock of the round-robin tail of a schedule on the refinable policy's m_access /
